@@ -30,7 +30,8 @@ enum { P_IRQ_IN_SCHEDULER, P_IRQ_IN_RUN, P_IRQ_IN_KILL, P_IRQ_IN_BODY, P_IRQ_BET
        P_IRQ_AFTER_FINAL_CHECK, P_IRQ_BEFORE_FINAL_CHECK, P_PROBE_PASS, P_PROBE_PASS_DISPATCHED,
        P_SEND_REFUSED_WAKEUP, P_EVENT_WHILE_HANDLER_RUNNING, P_OBLIGATION_DISCHARGED, P_KILL_RACED_REQUEST,
        P_QUIESCED, P_QUEUE_HEALTH_CHECKED, P_TIMER_FIRED, P_MODE_IRQ, P_MODE_THR, P_OVERSLEEP_CHECKED,
-       P_NESTED_SENDS_OVERLAP, P_THR_QUIET_SLEEP_VERDICT, P_LONG_MODE, P_OVER_256_EVENTS };
+       P_NESTED_SENDS_OVERLAP, P_THR_QUIET_SLEEP_VERDICT, P_LONG_MODE, P_OVER_256_EVENTS,
+       P_TWO_SLEEPERS, P_MARATHON };
 static const char *const probe_names[] = {
 	"interrupt_inside_fibre_scheduler_next", "interrupt_inside_fibre_run", "interrupt_inside_fibre_kill",
 	"interrupt_inside_fibre_body", "interrupt_between_passes", "request_published_after_final_check",
@@ -40,7 +41,8 @@ static const char *const probe_names[] = {
 	"system_quiesced", "queue_health_checked", "timer_fired", "mode_irq", "mode_threads",
 	"sleep_verdict_checked_against_timers", "nested_event_sends_overlapped",
 	"thread_mode_sleep_verdict_with_no_sender_active", "long_lived_scenario",
-	"more_than_256_events_through_one_queue", NULL };
+	"more_than_256_events_through_one_queue", "second_sleeping_fibre_armed_a_timeout",
+	"regular_marathon_of_65536_requests_and_passes", NULL };
 
 #define NFIB 5
 enum { FE, FY, FS, FW1, FW2 };
@@ -177,27 +179,32 @@ static int yielding_fibre(fibre_t *f)
 	PT_END();
 }
 
-static uint32_t sleep_delta;
+static uint32_t sleep_delta, sleep_delta2;
+static bool w1_sleeps;		/* the first waiting fibre is a second sleeper in this run */
+
+static void arm_timeout(int x, uint32_t delta)
+{
+	uint32_t due = now + delta;
+	bool expired = fibre_timeout(due);
+	ev++;
+	sim_ev("timeout", (int32_t)delta, expired, x);
+	if (!expired) {
+		B[x].timer_known = true;
+		B[x].timer_uncertain = false;
+		B[x].due = due;
+		B[x].reasons++;
+	} else {
+		sim_fail("C02", "TIMEOUT_RET", "fibre_timeout(now+%u) returned true", delta);
+	}
+}
 
 static int sleeping_fibre(fibre_t *f)
 {
 	PT_BEGIN_FIBRE(f);
 	for (;;) {
 		body_enter(FS);
-		if (!quiescing) {
-			uint32_t due = now + sleep_delta;
-			bool expired = fibre_timeout(due);
-			ev++;
-			sim_ev("timeout", (int32_t)sleep_delta, expired, 0);
-			if (!expired) {
-				B[FS].timer_known = true;
-				B[FS].timer_uncertain = false;
-				B[FS].due = due;
-				B[FS].reasons++;
-			} else {
-				sim_fail("C02", "TIMEOUT_RET", "fibre_timeout(now+%u) returned true", sleep_delta);
-			}
-		}
+		if (!quiescing)
+			arm_timeout(FS, sleep_delta);
 		simrt_point();
 		in_body = -1;
 		PT_WAIT();
@@ -211,6 +218,10 @@ static int waiting_fibre(fibre_t *f)
 	PT_BEGIN_FIBRE(f);
 	for (;;) {
 		body_enter(x);
+		if (x == FW1 && w1_sleeps && !quiescing) {
+			arm_timeout(FW1, sleep_delta2);
+			sim_probe(P_TWO_SLEEPERS);
+		}
 		simrt_point();
 		in_body = -1;
 		PT_WAIT();
@@ -577,6 +588,9 @@ static void run(void)
 	static const uint32_t bases[] = { 0, 1000, 0x7ffffff0u, 0xfffffff0u, 0xffffff00u };
 	now = bases[sim_choose(5)] + sim_choose(16);
 	sleep_delta = 1 + sim_choose(sim_choose(2) ? 8 : 5000);
+	sleep_delta2 = 1 + sim_choose(sim_choose(2) ? 40 : 5000);
+	w1_sleeps = sim_choose(2);
+	bool marathon = mode == SIMRT_IRQ && sim_chance(1, 1500);
 	int strat = sim_choose(SIMRT_NSTRAT);
 	uint32_t sparam = strat == SIMRT_STRAT_PCT ? 1 + sim_choose(4) :
 			  strat == SIMRT_STRAT_KPREEMPT ? 1 + sim_choose(3) : 1 + sim_choose(4);
@@ -719,6 +733,31 @@ static void run(void)
 			sim_fail(OWNER, "QUEUE_CORRUPT:health", "after quiescence fibres were run in a known order; pass %d dispatched %d, expected %d", i, p.dispatched, want);
 	}
 	sim_probe(P_QUEUE_HEALTH_CHECKED);
+	if (marathon) {
+		/* a long-lived system, perfectly regular: one accepted interrupt-context request and one
+		 * pass per iteration, so whatever the scheduler counts (drains, removals, dispatches,
+		 * requests) advances by the same amount every time; a victim fibre is woken twice,
+		 * 65536 iterations apart give or take its own contribution, where a wrapped 16-bit
+		 * stamp or epoch would alias */
+		uint32_t k = 65536 + 40 + sim_choose(32);
+		uint32_t t0 = sim_choose(16), gap = 65536 + sim_choose(7) - 3;
+		int victim = nfib - 1, rot = nfib - 2;	/* rotation over fibres 1..rot (never the event handler) */
+		sim_probe(P_MARATHON);
+		sim_ev("marathon", k, t0, gap);
+		sim_trace_mute(true);
+		for (uint32_t i = 0; i < k; i++) {
+			int x = (i == t0 || i == t0 + gap) ? victim : 1 + (int)(i % (uint32_t)rot);
+			sim_budget(3000000);
+			ctx_run_atomic(x);
+			pass_t p = do_pass();
+			if (p.dispatched != x)
+				sim_fail(OWNER, B[x].oblig ? "LOST_WAKEUP:marathon" : "EXTRA_DISPATCH:marathon",
+					 "iteration %u of a long regular run: fibre_run_atomic(fibre %d) returned true and the next pass dispatched %d",
+					 i, x, p.dispatched);
+		}
+		sim_trace_mute(false);
+		sim_ev("marathon_end", 0, 0, 0);
+	}
 	sim_check_guards();
 }
 
